@@ -757,6 +757,9 @@ where
         // If not storing session state, clear QoS2 states and release publish-related packet IDs
         if !self.need_store {
             self.qos2_publish_handled.clear();
+            // The session ends with this connection: the packet ids of its in-flight
+            // packets are released below, so the packets themselves must go as well
+            self.store.clear();
 
             // Release packet IDs for PUBACK
             for packet_id in self.pid_puback.drain() {
